@@ -8,8 +8,11 @@
 //	         the bytes: nesting correct, every length exact, numbers in shortest form;
 //	C03.rt   ReadInterest/ReadData/ReadPacket on the contiguous bytes return exactly the fields,
 //	         content and signature value that were put in;
-//	C03.seg  decoding through enc.NewWireReader for every enumerated segmentation gives the same
-//	         result as the contiguous decode (and does not panic);
+//	C03.seg  decoding through enc.NewWireReader for every enumerated segmentation (including wires
+//	         with EMPTY segments: repeated cut offsets, cuts at 0 / at the end, the encoder's own
+//	         wire verbatim) gives the same result as the contiguous decode (and does not panic);
+//	         decoding leaves the Wire it was given intact (segment list and bytes compared with a
+//	         private copy after every decode) and a second decode of the same Wire gives the same;
 //	C03.name Name.Bytes/Component.Bytes equal the bytes the packet encoder wrote for the same
 //	         name/component, and NameFromBytes/ComponentFromBytes return what they were given.
 package main
@@ -24,6 +27,7 @@ import (
 	"io"
 	"os"
 	"os/exec"
+	"regexp"
 	"runtime/debug"
 	"sort"
 	"strconv"
@@ -410,6 +414,7 @@ type stats struct {
 	segmentations                                                              int64
 	perDepth                                                                   [3]int64
 	cuts1, cuts2, cuts3, natural                                               int64
+	naturalVerbatim, naturalWithEmpty, emptySegWires, secondDecodes            int64
 	fullSeg, headerSeg                                                         int64
 	maxLen                                                                     int
 	nameChecks                                                                 int64
@@ -688,7 +693,7 @@ func evalDesc(idx int64, label string, d pktgen.Desc, depth int, thorough, light
 			plan.headerOnly = true
 			plan.pairs = thorough || depth <= 1
 		}
-		runSeg(b, root, &d, plan, &ref, replay)
+		runSeg(b, root, &d, plan, &ref, depth, thorough, replay)
 		st.mu.Lock()
 		st.distinct[hk] = true
 		if n > st.maxLen {
@@ -774,12 +779,93 @@ func runEcdsaRepeat(i int64, label string, d pktgen.Desc, n int, thorough bool) 
 	st.mu.Unlock()
 }
 
-func runSeg(b *pktgen.Built, root *pktgen.Node, d *pktgen.Desc, plan segPlan, ref *sink, replay map[string]any) {
+func runSeg(b *pktgen.Built, root *pktgen.Node, d *pktgen.Desc, plan segPlan, ref *sink, depth int, thorough bool, replay map[string]any) {
 	B := b.Bytes
 	n := len(B)
+	orig := append([]byte(nil), B...) // private copy: what every wire handed to the decoder must still hold afterwards
 	var got sink
-	var nseg int64
-	try := func(cuts ...int) {
+	var nseg, nEmpty, nTwice int64
+	var w0 enc.Wire
+	report := func(key string, cuts []int, lens []int) {
+		rp := map[string]any{}
+		for k, v := range replay {
+			rp[k] = v
+		}
+		if cuts != nil {
+			rp["cuts"] = append([]int{}, cuts...)
+		}
+		rp["segment_lengths"] = lens
+		addV(d, "C03.seg", key, fmt.Sprintf("%s (%d bytes) cut at %v (segment lengths %v): %s", d.String(), n, cuts, lens, key), rp)
+	}
+	lensOf := func(w enc.Wire) []int {
+		l := make([]int, len(w))
+		for i := range w {
+			l[i] = len(w[i])
+		}
+		return l
+	}
+	// intact: the Wire value the decoder was given still has the same segments (same memory, same
+	// lengths) and they still hold the packet's bytes. "" or what changed.
+	intact := func(w enc.Wire, full bool) string {
+		for i := range w {
+			if len(w[i]) != len(w0[i]) || (len(w[i]) > 0 && &w[i][0] != &w0[i][0]) {
+				return "the segment list of the caller's Wire is rearranged"
+			}
+		}
+		if full {
+			p := 0
+			for i := range w {
+				if p+len(w[i]) > len(orig) || !bytes.Equal(w[i], orig[p:p+len(w[i])]) {
+					return "the bytes of the caller's Wire are overwritten"
+				}
+				p += len(w[i])
+			}
+			if p != len(orig) {
+				return "the bytes of the caller's Wire are overwritten"
+			}
+		}
+		return ""
+	}
+	// decodeW hands w to the decoder (segmented decode must equal the contiguous one), then checks
+	// that decoding left w alone; twice: the same Wire value is decoded a second time.
+	decodeW := func(w enc.Wire, cuts []int, twice bool) {
+		w0 = append(w0[:0], w...)
+		lens := lensOf
+		nseg++
+		ok, msg := decode(d.Interest, enc.NewWireReader(w), &got, false)
+		good := ok && bytes.Equal(got.buf, ref.buf)
+		if !good {
+			key := ""
+			if !ok {
+				key = kind(d) + " segmented decode fails: " + msg
+			} else {
+				var a, r2 sink
+				decode(d.Interest, enc.NewWireReader(append(enc.Wire(nil), w0...)), &a, true)
+				decode(d.Interest, enc.NewBufferReader(orig), &r2, true)
+				key = kind(d) + " segmented decode differs from contiguous decode in " + diff(&a, &r2)
+			}
+			report(key, cuts, lens(w0))
+		}
+		if why := intact(w, n <= 1024 || twice || nseg%256 == 0); why != "" {
+			report("decoding a segmented wire modifies the wire it was given ("+why+"): the same wire no longer holds the packet", cuts, lens(w0))
+			return
+		}
+		if twice && good {
+			nseg++
+			nTwice++
+			ok, msg = decode(d.Interest, enc.NewWireReader(w), &got, false)
+			switch {
+			case !ok:
+				report(kind(d)+" second decode of the same segmented wire fails: "+msg, cuts, lens(w0))
+			case !bytes.Equal(got.buf, ref.buf):
+				report(kind(d)+" second decode of the same segmented wire differs from the first", cuts, lens(w0))
+			case intact(w, true) != "":
+				report("decoding a segmented wire modifies the wire it was given ("+intact(w, true)+"): the same wire no longer holds the packet", cuts, lens(w0))
+			}
+		}
+	}
+	// cuts may repeat an offset and may be 0 or n: those segmentations contain EMPTY segments
+	try := func(twice bool, cuts ...int) {
 		w := make(enc.Wire, 0, len(cuts)+1)
 		p := 0
 		for _, c := range cuts {
@@ -787,39 +873,35 @@ func runSeg(b *pktgen.Built, root *pktgen.Node, d *pktgen.Desc, plan segPlan, re
 			p = c
 		}
 		w = append(w, B[p:])
-		nseg++
-		ok, msg := decode(d.Interest, enc.NewWireReader(w), &got, false)
-		if ok && bytes.Equal(got.buf, ref.buf) {
-			return
-		}
-		key := ""
-		if !ok {
-			key = kind(d) + " segmented decode fails: " + msg
-		} else {
-			var a, r2 sink
-			decode(d.Interest, enc.NewWireReader(w), &a, true)
-			decode(d.Interest, enc.NewBufferReader(B), &r2, true)
-			key = kind(d) + " segmented decode differs from contiguous decode in " + diff(&a, &r2)
-		}
-		rp := map[string]any{}
-		for k, v := range replay {
-			rp[k] = v
-		}
-		rp["cuts"] = append([]int{}, cuts...)
-		addV(d, "C03.seg", key, fmt.Sprintf("%s (%d bytes) cut at %v: %s", d.String(), n, cuts, key), rp)
+		decodeW(w, cuts, twice)
 	}
-	// the encoder's own segmentation (empty buffers dropped)
+	// the encoder's own wire, exactly as the API returned it (payload buffers supplied by the caller
+	// as empty slices are empty segments of it), decoded twice; and the same without the empty ones
 	{
 		var cuts []int
-		p := 0
+		p, empties := 0, false
 		for _, s := range b.Wire {
 			p += len(s)
+			empties = empties || len(s) == 0
 			if len(s) > 0 && p < n && (len(cuts) == 0 || cuts[len(cuts)-1] != p) {
 				cuts = append(cuts, p)
 			}
 		}
+		if len(b.Wire) > 1 {
+			var all []int
+			q := 0
+			for _, s := range b.Wire[:len(b.Wire)-1] {
+				q += len(s)
+				all = append(all, q)
+			}
+			decodeW(b.Wire, all, true)
+			atomic.AddInt64(&st.naturalVerbatim, 1)
+			if empties {
+				atomic.AddInt64(&st.naturalWithEmpty, 1)
+			}
+		}
 		if len(cuts) > 0 {
-			try(cuts...)
+			try(false, cuts...)
 			atomic.AddInt64(&st.natural, 1)
 		}
 	}
@@ -843,9 +925,46 @@ func runSeg(b *pktgen.Built, root *pktgen.Node, d *pktgen.Desc, plan segPlan, re
 		}
 	}
 	for _, c := range pos {
-		try(c)
+		try(false, c)
 	}
 	atomic.AddInt64(&st.cuts1, int64(len(pos)))
+	// segmentations with EMPTY segments (a repeated cut offset, a cut at 0 or at the end): an empty
+	// segment in the middle, two in a row (and, <=1-deviation packets, at the start / at the end of
+	// a 2-segment wire) at every 1-cut position (quick tier, 2-deviation packets: at every element
+	// start / value start / end offset), around every pair of element offsets, and before / after
+	// the whole packet; these wires are decoded twice.
+	{
+		before := nseg
+		for _, cs := range [][]int{{0}, {n}, {0, 0}, {n, n}, {0, n}} {
+			try(true, cs...)
+		}
+		epos := pos
+		var hp []int
+		if root != nil {
+			hp = root.HeaderCuts(n, 0)
+		}
+		if !(thorough || depth <= 1) || plan.headerOnly {
+			epos = hp
+		}
+		for _, c := range epos {
+			try(true, c, c)
+			try(false, c, c, c)
+			if thorough || depth <= 1 {
+				try(true, 0, c)
+				try(true, c, n)
+			}
+		}
+		if (thorough || depth <= 1) && !plan.headerOnly && len(hp) <= 96 {
+			for i := 0; i < len(hp); i++ {
+				for j := i + 1; j < len(hp); j++ {
+					try(true, hp[i], hp[i], hp[j])
+					try(true, hp[i], hp[j], hp[j])
+					try(true, hp[i], hp[i], hp[j], hp[j])
+				}
+			}
+		}
+		nEmpty = (nseg - before) - nTwice
+	}
 	pairPos := pos
 	if !plan.full && !plan.headerOnly && root != nil {
 		pairPos = root.HeaderCuts(n, 0)
@@ -853,7 +972,7 @@ func runSeg(b *pktgen.Built, root *pktgen.Node, d *pktgen.Desc, plan segPlan, re
 	if plan.full || plan.pairs {
 		for i := 0; i < len(pairPos); i++ {
 			for j := i + 1; j < len(pairPos); j++ {
-				try(pairPos[i], pairPos[j])
+				try(false, pairPos[i], pairPos[j])
 			}
 		}
 		atomic.AddInt64(&st.cuts2, int64(len(pairPos)*(len(pairPos)-1)/2))
@@ -863,14 +982,21 @@ func runSeg(b *pktgen.Built, root *pktgen.Node, d *pktgen.Desc, plan segPlan, re
 		for i := 0; i < len(pos); i++ {
 			for j := i + 1; j < len(pos); j++ {
 				for k := j + 1; k < len(pos); k++ {
-					try(pos[i], pos[j], pos[k])
+					try(false, pos[i], pos[j], pos[k])
 					cnt++
 				}
 			}
 		}
 		atomic.AddInt64(&st.cuts3, cnt)
 	}
+	// the bytes all harness-made segments point into are still the packet
+	if !bytes.Equal(B, orig) {
+		report("decoding a segmented wire modifies the wire it was given (the bytes of the caller's Wire are overwritten): the same wire no longer holds the packet", nil, nil)
+		copy(B, orig)
+	}
 	atomic.AddInt64(&st.segmentations, nseg)
+	atomic.AddInt64(&st.emptySegWires, nEmpty)
+	atomic.AddInt64(&st.secondDecodes, nTwice)
 	atomic.AddInt64(&st.decodes, nseg)
 }
 
@@ -1067,6 +1193,36 @@ func crashSite(stderr string) string {
 	return ""
 }
 
+const (
+	deathMemPressure = "out of memory while allocating a small block: memory pressure of the check itself"
+	deathCrash       = "runtime crash"
+	deathOther       = "no runtime crash in stderr"
+)
+
+var oomLine = regexp.MustCompile(`out of memory: cannot allocate (\d+)-byte block \((\d+) in use\)`)
+
+// classifyDeath tells why a worker process died, from its stderr. "cannot allocate N-byte block
+// (M in use)": a small N means the address space was used up by the check's own heap (garbage
+// awaiting collection); only a single huge allocation (N >= 256 MiB: sized by packet content, the
+// largest legitimate allocation for the generated packets is about 1 MiB) is a crash to be
+// attributed to the code that asked for it.
+func classifyDeath(stderr string) string {
+	if m := oomLine.FindStringSubmatch(stderr); m != nil {
+		n, _ := strconv.ParseInt(m[1], 10, 64)
+		if n >= 256<<20 {
+			return deathCrash
+		}
+		return deathMemPressure
+	}
+	if strings.Contains(stderr, "fatal error: out of memory") || strings.Contains(stderr, "cannot allocate memory") {
+		return deathMemPressure
+	}
+	if crashSite(stderr) != "" {
+		return deathCrash
+	}
+	return deathOther
+}
+
 func keysOf(m map[string]bool) []string {
 	var o []string
 	for k := range m {
@@ -1101,11 +1257,13 @@ func main() {
 	// Safety net: run the whole check under an address-space limit, so that a decoder that
 	// sizes an allocation by a mis-framed length cannot take the machine down.
 	if os.Getenv("C03_CHILD") == "" {
-		var tail string
-		for attempt := 1; attempt <= 2; attempt++ {
+		var tail, cls string
+		workers := enum.Workers()
+		lowMem := 0 // number of earlier attempts that died of the check's own memory pressure
+		for attempt := 1; attempt <= 3; attempt++ {
 			cmd := exec.Command("bash", "-c", `ulimit -v 16000000; exec "$0" "$@"`, os.Args[0])
 			cmd.Args = append(cmd.Args, os.Args[1:]...)
-			cmd.Env = append(os.Environ(), "C03_CHILD=1")
+			cmd.Env = append(os.Environ(), "C03_CHILD=1", fmt.Sprintf("C03_LOWMEM=%d", lowMem), fmt.Sprintf("VERIF_WORKERS=%d", workers))
 			var errb tailBuf
 			cmd.Stdout, cmd.Stderr = os.Stdout, io.MultiWriter(os.Stderr, &errb)
 			err := cmd.Run()
@@ -1116,22 +1274,55 @@ func main() {
 				os.Exit(1)
 			}
 			tail = errb.String()
-			fmt.Printf("NOTE: C03 worker process ended abnormally (attempt %d): %v\n", attempt, err)
+			cls = classifyDeath(tail)
+			fmt.Printf("NOTE: C03 worker process ended abnormally (attempt %d, %s): %v\n", attempt, cls, err)
+			if cls == deathMemPressure {
+				// the check's own heap hit the address-space limit: same cases again with half the
+				// goroutines and a tighter collector; never a verdict about the repository
+				lowMem++
+				if workers = workers / 2; workers < 2 {
+					workers = 2
+				}
+			} else if attempt >= 2 {
+				break
+			}
+		}
+		if cls == deathMemPressure {
+			fmt.Printf("CHECK-ERROR: C03 worker process ran out of memory three times while allocating ordinary small blocks (memory pressure of the check itself, inconclusive): %s\n", lastLines(tail, 3))
+			os.Exit(2)
 		}
 		// The worker died twice. If it died inside repository code while building/decoding the
 		// generated packets (fatal runtime error, unrecovered panic in another goroutine, stack
-		// overflow), that is a finding about the repository, not a broken check.
-		if site := crashSite(tail); site != "" {
+		// overflow, a single allocation of hundreds of MiB sized by the input), that is a finding
+		// about the repository, not a broken check.
+		if site := crashSite(tail); site != "" && cls == deathCrash {
 			rep := report.New("C03", "exploration")
 			rep.Add(report.Violation{Clause: "C03.rt", Key: "the process dies while building or decoding generated packets: " + site,
 				Detail: "the C03 worker process was killed by the Go runtime twice in a row; last lines of its stderr: " + lastLines(tail, 12),
 				Replay: map[string]any{"stderr_tail": lastLines(tail, 40)}})
 			rep.Finish(report.Coverage{"evaluations": 0, "distinct_nontrivial": 0, "rule": "worker died before reporting", "samples": []string{}, "exhaustive": false}, nil)
 		}
-		fmt.Printf("CHECK-ERROR: C03 worker process failed twice and its stderr shows no repository frame: %s\n", lastLines(tail, 5))
+		fmt.Printf("CHECK-ERROR: C03 worker process failed (%s) and its stderr shows no repository frame: %s\n", cls, lastLines(tail, 5))
 		os.Exit(2)
 	}
-	debug.SetGCPercent(600) // decoding produces mostly short-lived garbage; the live heap is small
+	// Memory: decoding produces mostly short-lived garbage and the live heap is tens of MB, but a
+	// decode of a packet with a 64 KiB name component allocates a 1 MiB component slice, and
+	// whatever is allocated while a collection is marking counts as live for the next heap goal
+	// (observed: 1 GB "live" after one stretched mark phase on a loaded machine, hence a 7 GB goal
+	// with GOGC=600). A soft memory limit far below the `ulimit -v` of the wrapper makes the
+	// collector work harder instead of letting the process die.
+	gcPct, memLimit := 300, int64(4)<<30
+	lm, _ := strconv.Atoi(os.Getenv("C03_LOWMEM"))
+	if lm > 0 {
+		gcPct, memLimit = 100, int64(2)<<30
+	}
+	if n, err := strconv.Atoi(os.Getenv("C03_SELFTEST_OOM")); err == nil && lm < n {
+		// exercises the parent's death classification and retry: die like a process under memory pressure
+		fmt.Fprintln(os.Stderr, "runtime: out of memory: cannot allocate 4194304-byte block (13890715648 in use)\nfatal error: out of memory\n\ngoroutine 53 [running]:\ngithub.com/named-data/ndnd/std/ndn/spec_2022.(*InterestParsingContext).Parse(0x0)")
+		os.Exit(2)
+	}
+	debug.SetGCPercent(gcPct)
+	debug.SetMemoryLimit(memLimit)
 	rep = report.New("C03", "exploration")
 	samples.N = 10
 	thorough := rep.Thorough()
@@ -1216,7 +1407,11 @@ func main() {
 		"two_cuts":                               st.cuts2,
 		"three_cuts":                             st.cuts3,
 		"encoder_own_segmentations":              st.natural,
-		"packets_with_every_1_and_2_cut":         st.fullSeg,
+		"encoder_own_wire_verbatim_decoded_twice":     st.naturalVerbatim,
+		"encoder_own_wires_with_an_empty_segment":     st.naturalWithEmpty,
+		"wires_with_empty_segments_decoded":           st.emptySegWires,
+		"second_decodes_of_the_same_wire":             st.secondDecodes,
+		"packets_with_every_1_and_2_cut":              st.fullSeg,
 		"packets_with_header_neighbourhood_cuts_only": st.headerSeg,
 		"largest_packet_bytes":                        st.maxLen,
 		"standalone_name_checks":                      st.nameChecks,
@@ -1243,7 +1438,9 @@ func main() {
 			"payload_sizes":           []int{-1, -2, 0, 1, 3, 252, 253, 65535, 65536},
 			"payload_splits":          pktgen.SplitClasses,
 			"signers":                 len(pktgen.Signers()),
-			"segmentation":            "packets <=400 B: every 1-cut and 2-cut (quick tier: 2-deviation packets get every 1-cut plus all pairs of cuts at TLV start/value/end offsets); every 3-cut for packets <=80 B (thorough: <=112 B for <=1-deviation packets); larger packets: all cuts within 2 bytes of any TLV header/value/end offset and all pairs of them (quick tier, 2-deviation packets: cuts within 1 byte, no pairs); plus the encoder's own wire segmentation",
+			"segmentation":            "packets <=400 B: every 1-cut and 2-cut (quick tier: 2-deviation packets get every 1-cut plus all pairs of cuts at TLV start/value/end offsets); every 3-cut for packets <=80 B (thorough: <=112 B for <=1-deviation packets); larger packets: all cuts within 2 bytes of any TLV header/value/end offset and all pairs of them (quick tier, 2-deviation packets: cuts within 1 byte, no pairs); plus the encoder's own wire segmentation (with its empty segments dropped, and verbatim as EncodedX.Wire)",
+			"empty_segments":          "wires that contain EMPTY segments: whole packet with an empty segment before / after / two before / two after / one on each side; for every 1-cut offset c (quick tier 2-deviation packets and packets >400 B: every element start / value-start / end offset) the wires [A|e|B], [A|e|e|B] and (<=1-deviation packets; thorough: all) [e|A|B], [A|B|e]; for every pair of element offsets of packets <=400 B (<=1-deviation packets; thorough: all) [A|e|B|C], [A|B|e|C], [A|e|B|e|C]; plus EncodedX.Wire verbatim (caller payload buffers of length 0 are empty segments of it)",
+			"input_not_modified":      "after EVERY segmented decode the Wire value handed to enc.NewWireReader is compared with a private copy (segment count, each segment's address and length; the bytes for packets <=1024 B, every 256th decode and at the end for larger ones); every wire with an empty segment (except [A|e|e|B]) and the encoder's own wire are decoded a second time through a new reader over the same Wire value and must give the same result",
 		},
 	}
 	if !complete {
@@ -1251,7 +1448,7 @@ func main() {
 	}
 	rep.Finish(cov, []string{
 		"component, payload and key values are fixed byte patterns: only lengths, types, presence and buffer splits vary",
-		"segmentations never contain an empty segment (cut offsets are distinct and strictly inside the packet)",
+		"empty segments are enumerated around single offsets and pairs of element offsets (see bounds.empty_segments), not in combination with every 2-/3-cut",
 		"an error returned by MakeInterest/MakeData means no packet was built; the property says nothing about it (listed under api_refused_to_build)",
 		"a trailing ParametersSha256Digest component in the input name of an Interest may be kept or dropped by the API; if the encoded Interest has no parameters and its name still ends in such a component the decoder may reject it",
 		"durations are whole milliseconds; Nonce <= 2^32-1 and HopLimit <= 255 (the ranges the wire format can carry)",
